@@ -78,3 +78,5 @@ package replace
 //@   requires sp != nil
 //@   modifies nothing
 //@   ensures result1 == nil ==> result != nil
+//@   ensures result1 == nil && ref.String() != "" ==> result.Ref.String() != ""
+//@   loop 1: invariant ref.String() != "" ==> currentRef.String() != ""
